@@ -149,7 +149,13 @@ def make_index(kind, name="self.index"):
     if kind == "index":
         return SO.make_component(Index, name, "i", "index")
     n = int(kind[-1]) if kind[-1].isdigit() else 2
-    return SO.make_multiindex(MultiIndex, Index, Column, name, ["i", "j", "k"][:n])
+    mi = SO.make_multiindex(MultiIndex, Index, Column, name, ["i", "j", "k"][:n])
+    # MultiIndex(unique=...) (joint uniqueness over levels): unset here - a MultiIndex is transformed with the DataFrameSchema methods,
+    # whose handling of the constraint is stated for the container (unique_spec)
+    if "_unique" in mi.attrs or "_unique" in getattr(mi, "field_types", {}):
+        mi.attrs["_unique"] = None
+        mi.attrs0["_unique"] = None
+    return mi
 
 
 class SchemaOp(Contract):
@@ -174,8 +180,14 @@ class SchemaOp(Contract):
         kinds = self.index_kinds if backend == "pandas" else ["none"]
         k = cur().choose([(x, None) for x in kinds], "kind(self.index)") if len(kinds) > 1 else 0
         core.register_model_var("kind(self.index)", lambda m, k=k: kinds[k])
-        r = SO.make_schema(S, C, "self", self.labels, make_index(kinds[k]))
+        return self.with_unique(SO.make_schema(S, C, "self", self.labels, make_index(kinds[k])))
+
+    def with_unique(self, r):
         how = self.fixed.get("unique", "any")
+        if how == "any":
+            # (ops without a case split on it: unset, or one constraint over two columns)
+            how = ["none", "a+b"][cur().choose([("none", None), ("a+b", None)], "self.unique")]
+        cur().ghost["unique_case"] = how
         if how != "any":
             # the schema-level joint uniqueness constraints: none, one over two columns (unique=["a", "b"]), or several groups
             u = {"none": None, "a+b": ListObj(["a", "b"]), "a+b|c": ListObj([ListObj(["a", "b"]), ListObj(["c"])])}[how]
@@ -190,7 +202,7 @@ class SchemaOp(Contract):
         """what `unique=["a", "b"]` becomes (C15: S accepts D => op(S) accepts op(D)): under a rename the names follow the columns; a
         constraint that names a column the result no longer declares cannot be kept as it is (the back ends would check the remaining
         columns ALONE, which D need not satisfy)"""
-        how = self.fixed.get("unique", "any")
+        how = cur().ghost.get("unique_case", "any")
         if how in ("any", "none"):
             if how == "none":
                 out["schema.unique_stays_unset"] = attr(result, "_unique") is None
@@ -200,7 +212,7 @@ class SchemaOp(Contract):
         groups0 = [["a", "b"]] if how == "a+b" else [["a", "b"], ["c"]]
         nested = how != "a+b"
         norm = (lambda g: [] if g is None else ([list(x) for x in g] if nested else [list(g)]))
-        if rename is not None:
+        if rename:
             out["schema.unique_follows_the_renamed_columns"] = norm(got) == [[rename.get(n, n) for n in g] for g in groups0]
         else:
             flat = [y for g in norm(got) for y in g]
@@ -243,8 +255,10 @@ class SchemaOp(Contract):
             if p in self.schema_params_touched or p == "index":
                 continue
             sp = SO.SCHEMA_STORED_AS.get(p, p)
-            if p == "unique" and self.fixed.get("unique", "any") != "any":
-                continue  # (stated by unique_spec)
+            if p == "unique" and cur().ghost.get("unique_case", "any") != "any":
+                # C15: the constraints follow renamed columns; one over a column the result no longer declares is dropped
+                self.unique_spec(out, result, rename=getattr(self, "_renamed", None), remaining=want_keys)
+                continue
             out[f"schema.{p}"] = SO.attr_equal(result, self_, sp)
         if index == "same":
             ri, si = attr(result, "index"), attr0(self_, "index")
@@ -287,10 +301,7 @@ class RemoveColumns(SchemaOp):
 
     def ensures(self, result, old, self_, cols_to_remove):
         out = {"request_was_valid": self.valid(cols_to_remove)}
-        out = self.common(out, result, self_, kept(self_, [k for k in self.labels if k not in cols_to_remove]))
-        if out.get("returns_a_new_schema"):
-            self.unique_spec(out, result, remaining=[k for k in self.labels if k not in cols_to_remove])
-        return out
+        return self.common(out, result, self_, kept(self_, [k for k in self.labels if k not in cols_to_remove]))
 
     def on_raise(self, exc, old, self_, cols_to_remove):
         if exc.cls is not SchemaInitError:
@@ -322,10 +333,7 @@ class SelectColumns(SchemaOp):
 
     def ensures(self, result, old, self_, columns):
         out = {"request_was_valid": self.valid(columns)}
-        out = self.common(out, result, self_, kept(self_, list(columns)))
-        if out.get("returns_a_new_schema"):
-            self.unique_spec(out, result, remaining=list(columns))
-        return out
+        return self.common(out, result, self_, kept(self_, list(columns)))
 
     def on_raise(self, exc, old, self_, columns):
         return {"only_for_an_invalid_request": not self.valid(columns), "is_schema_init_error": exc.cls is SchemaInitError}
@@ -371,10 +379,8 @@ class RenameColumns(SchemaOp):
         if len(set(e[0] for e in exp)) != len(exp):
             out["no_column_lost"] = isinstance(result, Obj) and len(attr(result, "columns")) == len(self.labels)
             return out
-        out = self.common(out, result, self_, exp)
-        if out.get("returns_a_new_schema"):
-            self.unique_spec(out, result, rename=dict(rename_dict))
-        return out
+        self._renamed = {k: v for k, v in dict(rename_dict).items() if k != v}
+        return self.common(out, result, self_, exp)
 
     def on_raise(self, exc, old, self_, rename_dict):
         # refusing a swap (a->b, b->a) is documented: "ensure all new keys are not present in the current column names"
@@ -650,7 +656,7 @@ class ResetIndex(SchemaOp):
     def receiver(self):
         S, C = classes("pandas")
         kind = RESET_REQUESTS[self.fixed.get("req", 0)][0]
-        return SO.make_schema(S, C, "self", self.labels, make_index(kind))
+        return self.with_unique(SO.make_schema(S, C, "self", self.labels, make_index(kind)))
 
     def make_args(self):
         kind, level, drop = RESET_REQUESTS[self.arg("req", T.Any)]
